@@ -426,6 +426,16 @@ func (c *cluster) apply(a vAct) {
 			id, cmd := c.newCmd(4)
 			c.probe = c.submitFSM(n, "upd", UpdateFSM(cmd), id)
 		}
+	case "cfgprobe":
+		// C17: a membership change (non-voter M joins) must commit too
+		if n := c.up(a.N); n != nil {
+			if r := raftOf(n); r != nil {
+				cfg := r.configs.Latest.clone()
+				if err := cfg.AddNonvoter(a.M, addrOf(a.M), false); err == nil {
+					c.cfgProbe = c.submitTask(n, "cfg", ChangeConfig(cfg))
+				}
+			}
+		}
 	case "checkconv":
 		c.checkConverged()
 	case "nop":
@@ -645,6 +655,20 @@ func (c *cluster) checkConverged() {
 		}
 		if p.t.Err() == nil {
 			c.stats.class("probe-ok")
+		}
+	}
+	if p := c.cfgProbe; p != nil && p.nid == ldr.id && p.inc == ldr.inc && !p.notSubmitted {
+		if !taskDone(p.t) {
+			c.fail("converge", "membership-change-not-committed", "membership change submitted to leader %d after the network was healed did not complete within 10 virtual seconds", ldr.id)
+			return
+		}
+		if err := p.t.Err(); err == nil {
+			c.stats.class("cfgprobe-ok")
+		} else if _, temp := err.(TemporaryError); !temp {
+			if _, nl := err.(NotLeaderError); !nl && err != ErrStaleConfig {
+				c.fail("converge", "membership-change-refused", "membership change submitted to leader %d after the network was healed failed with %v", ldr.id, err)
+				return
+			}
 		}
 	}
 	for id := range r.configs.Latest.Nodes {
